@@ -87,6 +87,7 @@ class Session:
         from core import ConnectionManager, matcher
         from core.output import Output, stream
         from frontends.tui import Controller
+        env.reset_globals(color=color)      # first: whatever parsing the options does to global state is part of the session
         f = b = None
         if filter_text or break_text:
             # matchers given at start come from the command line: take them from the tool's own option parser, as main.py does
@@ -98,7 +99,6 @@ class Session:
             with contextlib.redirect_stdout(io.StringIO()), contextlib.redirect_stderr(io.StringIO()):
                 a = parse_args(argv)
             f, b = a.filter_matcher, a.stop_matcher
-        env.reset_globals(color=color)
         self.matcher = matcher
         self.out = stream.String()
         self.err = stream.String()
